@@ -3,6 +3,8 @@ Driver for C15: op sequences on map handles over `Uniflow.MapHeap`.
 Handles are numbered in creation order (every handle-returning line allocates the next number).
 
   new | newi                    fresh mutable / immutable empty map          → <idx>
+  newp <k> <v> <k> <v> …        types.NewMap(k, v, k, v, …): the pairs set one after the other (a repeated
+                                key keeps its last value), ONE new immutable handle                 → <idx>
   set i <k> <v> | del i <k> | clear i | mut i | imm i
                                 the Map method on handle i                   → <idx> same|fresh
                                 (same = the method returned its receiver)
@@ -39,7 +41,28 @@ def withT (st : St) (i : String) (f : Table → String) : St × String :=
     | some t => (st, f t)
     | none => (st, "bad-op")
 
+/-- `NewMap(pairs…)` as map.go does it: `NewMapWithSize`, `Set` for every pair on that MUTABLE map, then
+`Immutable()`; only the final handle is registered -/
+def newPairs (hp : Heap) (h : Handle) : Nat → List String → Option (Heap × Handle)
+  | _, [] => some (hp, h)
+  | 0, _ => none
+  | fuel + 1, toks =>
+    match parseVal toks with
+    | some (k, r') => match parseVal r' with
+      | some (v, rest) => match hp.set h k v with
+        | .ok hp' h' _ => newPairs hp' h' fuel rest
+        | _ => none
+      | none => none
+    | none => none
+
 def step (st : St) : List String → St × String
+  | "newp" :: toks =>
+    let (hp, h) := st.hp.newMut
+    match newPairs hp h (toks.length + 1) toks with
+    | some (hp', h') => match hp'.immutable h' with
+      | .ok hp'' h'' _ => ({ hp := hp'', regs := st.regs.push h'' }, toString st.regs.size)
+      | _ => (st, "bad-op")
+    | none => (st, "bad-op")
   | ["new"] => let (hp, h) := st.hp.newMut; ({ hp, regs := st.regs.push h }, toString st.regs.size)
   | ["newi"] => let (hp, h) := st.hp.newImm; ({ hp, regs := st.regs.push h }, toString st.regs.size)
   | "set" :: i :: r =>
